@@ -54,6 +54,8 @@ Init ==
             \/ \E q \in 1..Len(Seqs), f \in {"first", "last", "length"} : vec = Vec(f, Seqs[q], Nil, FilterRef(f, Seqs[q], Nil))
             \/ \E q \in 1..Len(Seqs), n \in 0..4 : vec = Vec("length_is", Seqs[q], I(n), FilterRef("length_is", Seqs[q], I(n)))
             \/ \E q \in 1..5, sep \in {<<",">>, <<"-", "-">>, <<"EACUTE">>} : vec = Vec("join", Seqs[q], S(sep), FilterRef("join", Seqs[q], S(sep)))
+            \/ \E t \in 1..Len(Texts), sub \in {<<"a", " ">>, <<" ", " ">>, <<",", ",">>, <<"b", " ", "c">>, <<>>, <<"EACUTE", "b">>} :
+                 vec = Vec("cut", S(Texts[t]), S(sub), FilterRef("cut", S(Texts[t]), S(sub)))
             \/ \E t \in 1..Len(Texts), c \in {",", " ", "NL", "a", "EACUTE"} :
                  \/ vec = Vec("cut", S(Texts[t]), S(<<c>>), FilterRef("cut", S(Texts[t]), S(<<c>>)))
                  \/ vec = Vec("split", S(Texts[t]), S(<<c>>), FilterRef("split", S(Texts[t]), S(<<c>>))))
